@@ -156,3 +156,94 @@ class T1:
                     if b.get("k") == "lit" and name in self.order:
                         ctx.inst("T1", "num_children:%s" % name, b["v"] == len(self.order[name]), arm["sp"],
                                  "num_children(%s) = %s but for_each_child visits %d children" % (name, b["v"], len(self.order[name])))
+
+
+def eval_variant_pred(body, pid, variant_path, depth=0):
+    """value of a bool-valued function body for an argument that is the given variant of an enum (fields unknown):
+    True / False, or None when it depends on anything else.  Understands match / matches! on the parameter, bool literals,
+    && || !, immutable bool lets, if/else, early `return`s (also of inlined helpers)."""
+    class Ret(Exception):
+        def __init__(self, v):
+            self.v = v
+
+    def pat_matches(pat):
+        """True / False / None"""
+        res = False
+        for alt in pat_alts(pat):
+            while alt.get("k") in ("pref", "pderef"):
+                alt = alt["pat"]
+            if alt.get("k") in ("pwild",) or (alt.get("k") == "pbind" and "sub" not in alt):
+                return True
+            vp = variant_pat(alt)
+            if vp is None:
+                return None
+            if vp[0] == variant_path:
+                # sub-patterns must be irrefutable for a definite answer
+                for sp in vp[1].values():
+                    x = sp
+                    while x.get("k") in ("pref", "pderef"):
+                        x = x["pat"]
+                    if not (x.get("k") == "pwild" or (x.get("k") == "pbind" and "sub" not in x)):
+                        return None
+                return True
+        return res
+
+    def ev(e, d):
+        if d > 40:
+            return None
+        e = resolve(e)
+        k = e.get("k")
+        if k == "lit" and isinstance(e.get("v"), bool):
+            return e["v"]
+        if k == "unary" and e["op"] == "!":
+            v = ev(e["e"], d + 1)
+            return None if v is None else (not v)
+        if k == "binary" and e["op"] in ("&&", "||"):
+            a, b = ev(e["l"], d + 1), ev(e["r"], d + 1)
+            if e["op"] == "&&":
+                if a is False or b is False:
+                    return False
+                return True if (a is True and b is True) else None
+            if a is True or b is True:
+                return True
+            return False if (a is False and b is False) else None
+        if k == "match":
+            if not is_local(e["scrut"], pid):
+                return None
+            for arm in e["arms"]:
+                m = pat_matches(arm["pat"])
+                if m is None or "guard" in arm and m:
+                    return None
+                if m:
+                    return ev(arm["body"], d + 1)
+            return None
+        if k == "if":
+            c = ev(e["cond"], d + 1)
+            if c is None:
+                return None
+            if c:
+                return ev(e["then"], d + 1)
+            return ev(e["else"], d + 1) if "else" in e else "unit"
+        if k in ("return", "ireturn"):
+            raise Ret((e.get("inl"), ev(e["e"], d + 1) if "e" in e else None))
+        if k == "semi":
+            return ev(e["e"], d + 1)
+        if k == "blockexpr":
+            try:
+                for s_ in e["b"]["stmts"]:
+                    if s_.get("k") == "let":
+                        continue
+                    v = ev(s_, d + 1)
+                    if v is None:
+                        return None
+                return ev(e["b"]["tail"], d + 1) if "tail" in e["b"] else "unit"
+            except Ret as r:
+                if "inl_id" in e and r.v[0] == e["inl_id"]:
+                    return r.v[1]
+                raise
+        return None
+    try:
+        v = ev(body, 0)
+    except Ret as r:
+        v = r.v[1]
+    return v if isinstance(v, bool) else None
